@@ -11,15 +11,45 @@ PROP_BUDGET = {}  # property -> {tier: seconds}
 PROPS = ["C01", "C02", "C03", "C04", "C05", "C06", "C07", "C08", "C09", "C10", "C12", "C13", "C14",
          "C15", "C16", "C17", "C18", "C19", "C20"]
 
-REAL = {
-    "srv": ["turn.Server (server.go)", "internal/server (request handlers, nonce)", "internal/allocation (manager, allocation, permission, channel bind)",
-            "internal/proto (codecs, STUNConn)", "internal/ipnet", "pion/stun"],
+COMMON_STUB = ["clock and timers (testing/synctest fake clock)", "crypto/rand (testing/cryptotest, seeded)", "logger (recording, yield point)",
+               "sync.Mutex/RWMutex in pion/turn (simsync: channel-based, same semantics, every acquire/release is a scheduler yield)",
+               "network (simnet UDP/TCP: latency, drop, duplicate, delay, reorder, segmentation, injected I/O errors)"]
+SRV_REAL = ["internal/allocation (manager, allocation, permission, channel bind, five-tuple)", "internal/proto (codecs)", "internal/ipnet", "pion/stun"]
+SRV_STUB = ["TURN clients (scripted raw STUN/ChannelData endpoints)", "peers (scripted endpoints)", "relay address generator (simnet-backed RelayAddressGenerator)",
+            "auth / permission / quota / event handlers (recording callbacks, yield points)"]
+# world tag (sim/worker_test.go worldTag) -> (real components, stubbed components)
+COMPONENTS = {
+    "srv": (["turn.Server (server.go: read loops, accept loop, Close)", "internal/server (request handlers, nonce manager)"] + SRV_REAL, SRV_STUB),
+    "srv-handlers": (["internal/server (request handlers driven datagram by datagram; nonce manager chosen by the plan)"] + SRV_REAL,
+                     SRV_STUB + ["turn.Server read loop (replaced by one long-lived handler loop over the simnet socket)"]),
+    "+tcp": (["turn.Server TCP listener path, proto.STUNConn stream framing, RFC 6062 Connect/ConnectionBind/ConnectionAttempt, io.Copy relay pipes"], []),
+    "+realclient": (["turn.Client (client.go)", "internal/client (UDPConn, transactions, bindings, permissions, periodic timers)"],
+                    ["scripted clients are replaced by the real client for this run"]),
+    "+free": (["Go race detector over free-running goroutines (no driver steps)"], ["scheduler decisions (not controlled in this pass; results are race reports only)"]),
+    "cli": (["turn.Client (client.go: Listen loop, PerformTransaction, handlers)", "internal/client (transaction map, UDPConn, TCPAllocation, bindings, permissions, timers)",
+             "internal/proto", "pion/stun"], ["TURN server (scripted: per-method reactions chosen by the plan)", "peers (none: relayed data is injected by the scripted server)"]),
+    "frame": (["internal/proto STUNConn (stream framing)", "internal/client TCPAllocation.BindConnection / TCPConn read path", "pion/stun"],
+              ["byte stream source (scripted segmentation, short reads, cuts)", "TURN client behind BindConnection (no-op fake)"]),
+    "gen": (["RelayAddressGeneratorStatic / PortRange / None (relay_address_generator_*.go)"], ["vnet/transport.Net (SimTransport over simnet)"]),
+    "cred": (["lt_cred.go (GenerateLongTermCredentials, GenerateLongTermTURNRESTCredentials, LongTermTURNRESTAuthHandler, NewLongTermAuthHandler)",
+              "internal/server authentication path, turn.Client (long-lived handler runs)"], SRV_STUB[:1]),
 }
-STUB = {
-    "srv": ["network (simnet UDP/TCP)", "clock and timers (testing/synctest)", "crypto/rand (cryptotest seeded)", "TURN clients (scripted raw STUN)",
-            "peers (scripted endpoints)", "relay address generator (simnet-backed)", "auth/permission/quota/event handlers (recording)", "logger (yield points)",
-            "sync.Mutex/RWMutex (simsync, channel-based, same semantics)"],
-}
+
+
+def components(world_counts):
+    real, stub, seen = [], list(COMMON_STUB), {}
+    for tag, n in sorted(world_counts.items()):
+        parts = tag.split("+")
+        keys = [parts[0]] + ["+" + x for x in parts[1:]]
+        for k in keys:
+            r, st = COMPONENTS.get(k, ([], []))
+            for x in r:
+                if x not in real:
+                    real.append(x)
+            for x in st:
+                if x not in stub:
+                    stub.append(x)
+    return real, stub
 
 
 def log(*a):
@@ -372,7 +402,7 @@ def add(dst, src):
 def evidence(prop, tier, seed, recs, wall, sc, known_hits, new, extra):
     runs = [r for r in recs if r.get("reason") not in ("harness",)]
     faults, yields, parks, probes, ops, locks = {}, {}, {}, {}, {}, {}
-    sigs, nontriv, flavors = set(), set(), collections.Counter()
+    sigs, nontriv, flavors, worlds = set(), set(), collections.Counter(), collections.Counter()
     states = 0
     vt = 0
     vmax = 0
@@ -383,6 +413,7 @@ def evidence(prop, tier, seed, recs, wall, sc, known_hits, new, extra):
         if is_nontrivial(r):
             nontriv.add(r.get("sig"))
         flavors[r.get("flavor", "")] += 1
+        worlds[r.get("world", "srv")] += 1
         states += r.get("states", 0)
         vt += r.get("virtual_ns", 0)
         vmax = max(vmax, r.get("virtual_ns", 0))
@@ -390,7 +421,6 @@ def evidence(prop, tier, seed, recs, wall, sc, known_hits, new, extra):
     samples = [r["plan"] for r in runs if r.get("plan") and not r.get("violations")][:3]
     if not samples:
         samples = [r["plan"] for r in runs if r.get("plan")][:1]
-    world = extra.get("world", "srv")
     cov = {
         "evaluations": len(runs),
         "distinct_nontrivial": len(nontriv),
@@ -413,8 +443,9 @@ def evidence(prop, tier, seed, recs, wall, sc, known_hits, new, extra):
         "distinct_states_sum": states,
         "flavors": dict(flavors),
         "lock_sites_visited": len(locks),
-        "real_components": extra.get("real", REAL.get(world, [])),
-        "stub_components": extra.get("stub", STUB.get(world, [])),
+        "worlds": dict(worlds),
+        "real_components": components(worlds)[0],
+        "stub_components": components(worlds)[1],
         "known_findings_seen": dict(known_hits),
         "build_s": round(getattr(sc, "build_s", 0), 1),
         "rewritten_mutex_decls": (sc.info or {}).get("rewritten_mutex_decls"),
